@@ -564,9 +564,11 @@ def cleanup(runs):
 
 
 # ------------------------------------------------------------------------------------------------ random cases
-def rnd_frame(rng, idx, align=True):
+def rnd_frame(rng, idx, align=True, empty_ok=False):
     ty = rng.choice(TYPES)
     w, h = rng.randint(1, 9), rng.randint(1, 7)
+    if empty_ok and rng.random() < 0.12:
+        w = 0          # a frame without pixels: its header is all there is (raw / trash only: no TIFF directory describes it)
     npx = w * h * BPP[ty]
     pad = (-(96 + npx)) % 8 if align else rng.randint(0, 7)
     return dict(w=w, h=h, ty=ty, pad=pad, id=idx, hw=rng.randint(0, 2 ** rng.choice([3, 20, 40])), trt=rng.randint(0, 2 ** rng.choice([4, 30, 62])),
@@ -644,7 +646,7 @@ def rnd_case(rng, cid, kinds, unit, ndev_max=2, scripts=True, maxz=99):
                     p.append(dict(cur_set, pid=npath, form=rng.choice(["plain", "file"])))
                     if rejected and rng.random() < 0.6:
                         break
-                fr = [rnd_frame(rng, idx + i, align=rng.random() < 0.8) for i in range(rng.randint(1, 3))]
+                fr = [rnd_frame(rng, idx + i, align=rng.random() < 0.8, empty_ok=c["devs"][d] in ("raw", "trash")) for i in range(rng.randint(1, 3))]
                 idx += len(fr)
                 o = dict(op="append", d=d, frames=fr)
                 if scripts:
